@@ -17,7 +17,7 @@ pub(crate) enum WitnessReport {
 }
 
 impl WitnessReport {
-    /// Joins two `WitnessReport`s together.
+    /// Joins two `WitnessReport`s for alternatives of the same pattern vector together.
     pub(crate) fn join_witness_reports(a: WitnessReport, b: WitnessReport) -> Self {
         match (a, b) {
             (WitnessReport::NoWitnesses, WitnessReport::NoWitnesses) => WitnessReport::NoWitnesses,
@@ -27,10 +27,11 @@ impl WitnessReport {
             (WitnessReport::Witnesses(wits), WitnessReport::NoWitnesses) => {
                 WitnessReport::Witnesses(wits)
             }
-            (WitnessReport::Witnesses(wits1), WitnessReport::Witnesses(mut wits2)) => {
-                let mut wits = wits1;
-                wits.append(&mut wits2);
-                WitnessReport::Witnesses(wits)
+            // Both reports are witness vectors of the same shape (one witness per column
+            // of the matrix). Either of them proves usefulness. Concatenating them would
+            // give a vector that has more elements than the matrix has columns.
+            (WitnessReport::Witnesses(wits1), WitnessReport::Witnesses(_)) => {
+                WitnessReport::Witnesses(wits1)
             }
         }
     }
@@ -95,6 +96,7 @@ impl fmt::Display for WitnessReport {
         };
         let s = witnesses
             .flatten()
+            .remove_duplicates()
             .into_iter()
             .map(|x| format!("`{x}`"))
             .join(", ");
